@@ -46,7 +46,9 @@ Init == /\ now = 0 /\ mstate = "none" /\ mstart = 0 /\ calls = 0 /\ pend = 0
         /\ stored = <<>> /\ last = 0 /\ bodyDone = FALSE /\ killReq = FALSE /\ joined = FALSE
 
 NextDue == IF calls = 0 THEN mstart ELSE mstart + (last + 1) * I
-Sampling == mstate = "running" /\ pend = 0 /\ ~killReq
+\* kill() is a request: until the ThreadTerminationError lands (Die) the monitor thread goes on, so a sample
+\* that is due at this very instant may still be taken after kill() was called
+Sampling == mstate = "running" /\ pend = 0
 CanAdvanceTo(t) == ~Sampling \/ t <= NextDue
 
 Start == /\ mstate = "none" /\ ~killReq
@@ -84,6 +86,7 @@ Join == /\ killReq /\ mstate = "dead" /\ ~joined
         /\ UNCHANGED <<now, mstate, mstart, calls, pend, stored, last, bodyDone, killReq>>
 
 Tick == /\ now < MaxT /\ ~joined /\ CanAdvanceTo(now + 1)
+        /\ ~(killReq /\ mstate = "running")     \* the kill lands before the clock moves (the killer can run)
         /\ now' = now + 1
         /\ UNCHANGED <<mstate, mstart, calls, pend, stored, last, bodyDone, killReq, joined>>
 
